@@ -37,7 +37,7 @@ def regrid(x, y, y_step, interpolant='linear'):
     # Don't use "if x" here, this is an ndarray
     if len(x) == 0:  # pylint: disable=len-as-condition
         return
-    if not np.alltrue(np.isfinite(y)):
+    if not np.all(np.isfinite(y)):
         raise ValueError('non-finite values in y vector')
     Y = y / y_step
     spline = interp1d(x, Y, kind=interpolant)
